@@ -71,8 +71,8 @@ Proof.
   rewrite Hq, Hs in H. cbn in H. destruct (i_closed (snd c)); [discriminate|reflexivity].
 Qed.
 
-Theorem pp_connect_books : forall sched, count_good (irun sched pp_connect_cfg) = true.
-Proof. apply ireach_every_schedule; vm_compute; reflexivity. Qed.
+Theorem pp_connect_books : forall count_locked sched, count_good (irun sched (pp_connect_cfg count_locked)) = true.
+Proof. intros [|]; apply ireach_every_schedule; vm_compute; reflexivity. Qed.
 Theorem http_connect_books : forall sched, count_good (irun sched http_connect_cfg) = true.
 Proof. apply ireach_every_schedule; vm_compute; reflexivity. Qed.
 
